@@ -46,6 +46,27 @@ def waitCall {α : Type} (maxWait : Int) (env : List (Option α × Bool)) : Opti
       if maxWait = 0 then (none, 1)
       else let (r, n) := timedLoop ticks; (r, n + 1)
 
+/-- small-step form: after attempt number `k` (0 = the attempt before the ticker is
+created) with the given outcome, and with the deadline test on that tick giving `expired`:
+`some r` = the call returns `r`, `none` = another attempt follows.  This is what the driver
+of the scheduled waiting forms executes (Model/C01.lean); `waitCall_eq_iter`
+(Proof/C01Wait.lean) shows it is the big-step `waitCall`. -/
+def waitDecide {α : Type} (maxWait : Int) (k : Nat) (outcome : Option α) (expired : Bool) :
+    Option (Option α) :=
+  match outcome with
+  | some v => some (some v)
+  | none =>
+    if maxWait < 0 then none
+    else if k = 0 then (if maxWait = 0 then some none else none)
+    else if expired then some none else none
+
+def waitIter {α : Type} (maxWait : Int) : Nat → List (Option α × Bool) → Option α × Nat
+  | _, [] => (none, 0)
+  | k, (o, b) :: rest =>
+    match waitDecide maxWait k o b with
+    | some r => (r, 1)
+    | none => let (r, n) := waitIter maxWait (k + 1) rest; (r, n + 1)
+
 /-- the control shape of the source the three definitions above mirror (compared on every
 run with the shape the go/ast extractor reads off `PushWait` and `PopWait`):
 `spinLoop` = the `maxWait < 0` loop, the two tests of `waitCall`, `timedLoop` = the ticker
